@@ -14,8 +14,10 @@ func TestMain(m *testing.M) {
 func TestC01(t *testing.T) { runProp(t, "C01") }
 func TestC02(t *testing.T) { runProp(t, "C02") }
 func TestC03(t *testing.T) { runProp(t, "C03") }
+func TestC04(t *testing.T) { runProp(t, "C04") }
 func TestC05(t *testing.T) { runProp(t, "C05") }
 func TestC06(t *testing.T) { runProp(t, "C06") }
+func TestC07(t *testing.T) { runProp(t, "C07") }
 func TestC08(t *testing.T) { runProp(t, "C08") }
 func TestC09(t *testing.T) { runProp(t, "C09") }
 func TestC10(t *testing.T) { runProp(t, "C10") }
@@ -25,8 +27,10 @@ func TestC13(t *testing.T) { runProp(t, "C13") }
 func TestC14(t *testing.T) { runProp(t, "C14") }
 func TestC15(t *testing.T) { runProp(t, "C15") }
 func TestC16(t *testing.T) { runProp(t, "C16") }
+func TestC17(t *testing.T) { runProp(t, "C17") }
 func TestC18(t *testing.T) { runProp(t, "C18") }
 func TestC19(t *testing.T) { runProp(t, "C19") }
+func TestC20(t *testing.T) { runProp(t, "C20") }
 
 // TestReplay re-runs one saved case through the property's oracle, bypassing rapid.
 func TestReplay(t *testing.T) {
